@@ -122,7 +122,8 @@ class C08(ProgCheck):
         # the witness and its variants: the same call before and after a failing one must report the same record
         for first in ecalls:
             for mid in ecalls:
-                prog = elib + [("print", [S("first:"), first]) if False else guarded(first, "first:"), guarded(mid, "mid"), guarded(first, "again:")]
+                g2 = lambda call, tag: ("begin", [("print", [S(tag), call])], [("OTHERS", [("print", [S("failed")])])])
+                prog = elib + [g2(first, "first:"), guarded(mid, "mid"), g2(first, "again:")]
                 tag = {"FS": "fs", "FU": "fu"}.get(first[1])
                 add(prog, {"family": "errrec-history", "same": [("first", "again", STALE)]})
                 ne += 1
@@ -216,10 +217,10 @@ class C08(ProgCheck):
         nr += 2
         self.stats["receiver_forms_cases"] = nr
         for k in range(300 if quick else 5000):
-            g = progen.Gen(self.rng, nvars=2, funcs=True, errors=0.1, errrec=(0.08 if k % 2 else 0.0), extras=(0.15 if k % 3 else 0.0))
+            g = progen.Gen(self.rng, nvars=2, funcs=True, errors=0.1, errrec=(0.08 if k % 2 else 0.0), extras=(0.15 if k % 3 else 0.0), mathx=(0.2 if k % 4 == 1 else 0.0))
             add(g.program(nstmts=self.rng.randint(3, 7), depth=2), {"family": "random"})
             for kk, vv in g.stats.items():
-                if kk.startswith(("error-", "handler-reports", "function-clause", "function-reads", "isnull")):
+                if kk.startswith(("error-", "handler-reports", "function-clause", "function-reads", "isnull", "mathx-")):
                     self.stats.setdefault("errrec_random", {})[kk] = self.stats.get("errrec_random", {}).get(kk, 0) + vv
         self.stats["cases"] = n
         return cases
